@@ -28,6 +28,8 @@ fam(ScenarioFamily('deep', BUS_PROPS, _rand(gen.cfg(nb=(2, 4), levels=6, prog_le
 fam(ScenarioFamily('parallel', BUS_PROPS, _rand(gen.cfg(p_par=0.6, p_idle=0.05)), 200, 4000))
 # forwarding between buses (one edge per (src,dst))
 fam(ScenarioFamily('forward', BUS_PROPS + ('C07',), _rand(gen.cfg(nb=(2, 4), p_fwd=1.0, p_idle=0.05)), 300, 6000))
+# forwarding combined with small history limits (loop prevention must not depend on what the history still holds)
+fam(ScenarioFamily('forward_history', BUS_PROPS + ('C07',), _rand(gen.cfg(nb=(2, 4), p_fwd=1.0, hist=[1, 2, 3, 5, 10], actor_ops=(3, 9), p_idle=0.03)), 200, 4000))
 # small history limits
 fam(ScenarioFamily('history', BUS_PROPS, _rand(gen.cfg(hist=[1, 2, 3, 5, 10], nb=(1, 3), actor_ops=(3, 9), p_idle=0.05)), 300, 6000))
 
@@ -135,20 +137,29 @@ fam(GraphFamily())
 fam(ScenarioFamily('recursion', ('C01', 'C03', 'C15', 'C11'), gen.recursion_scenario, 120, 1200))
 fam(ScenarioFamily('capacity', ('C14', 'C13'), gen.capacity_scenario, 150, 2000))
 fam(ScenarioFamily('spawn', ('C06', 'C04', 'C05', 'C02'), gen.spawn_scenario, 100, 1500))
-fam(ScenarioFamily('dupfwd', ('C07',), gen.dupfwd_scenario, 60, 600))
+fam(ScenarioFamily('dupfwd', BUS_PROPS + ('C07',), gen.dupfwd_scenario, 150, 3000))
+fam(ScenarioFamily('later', BUS_PROPS, gen.later_scenario, 200, 4000))
+fam(EnumFamily('error_enum', ('C11', 'C01'), gen.error_base, gen.error_derive, 12, 200, 40, 120))
 fam(EnumFamily('stop_enum', ('C16',), gen.stop_base, gen.stop_derive, 12, 200, 40, 150))
 fam(EnumFamily('cancel_enum', ('C16',), gen.stop_base, gen.cancel_derive, 6, 80, 30, 100))
-fam(EnumFamily('timeout_enum', ('C10', 'C08'), gen.timeout_base, gen.timeout_derive, 14, 250, 40, 150))
+fam(EnumFamily('timeout_enum', ('C10', 'C08', 'C02', 'C06'), gen.timeout_base, gen.timeout_derive, 14, 250, 40, 150))
 
 CHECKS['C01'].families.append('recursion')
 CHECKS['C01'].families.append('graphs')
 CHECKS['C03'].families.append('recursion')
 CHECKS['C15'].families.append('recursion')
 CHECKS['C06'].families.append('spawn')
+CHECKS['C11'].families.append('error_enum')
+CHECKS['C01'].families.append('error_enum')
+for _p in ('C01', 'C02', 'C03', 'C04', 'C05', 'C06', 'C08', 'C09', 'C11', 'C15'):
+    CHECKS[_p].families.append('dupfwd')
+    CHECKS[_p].families.append('later')
 CHECKS['C08'].families.append('timeout_enum')
+CHECKS['C02'].families.append('timeout_enum')
+CHECKS['C06'].families.append('timeout_enum')
 CHECKS['C08'].families.append('recursion')
 
-chk(Check('C07', 'exploration', ['graphs', 'forward', 'dupfwd'],
+chk(Check('C07', 'exploration', ['graphs', 'forward', 'dupfwd', 'forward_history'],
           {'c07_forwarded_events': {'quick': 800, 'thorough': 15000}},
           'every forwarding digraph (self-loops included) on 1-2 buses and (thorough: all 512; quick: 90 sampled) on 3 buses x every entry bus x with/without concurrent nested-await traffic, random digraphs on 4-5 buses, random forwarding programs; per event: set of buses that processed it == reachability set, each once, event_path == order of first acceptance, same object on every bus, results of every bus accumulate, quiescence reached (termination); non-trivial when >=1 event with a reachability set of >=2 buses was judged',
           'offline reachability/count/path checker over recorded processing histories; non-termination = scenario never goes silent / iteration budget', [A_VT, A_OBS, A_GEN]))
